@@ -14,7 +14,7 @@
     Composition with ShardBuilder.Add: C09_add_wf shows that every state reached by add_repos from the empty builder
     satisfies wf_b (see there for the hypotheses on the inputs), which closes the chain documents -> Add -> Write ->
     NewSearcher -> accessors. *)
-From ZV Require Import Lib.Base Lib.Varint Generated.FormatConsts Model.Format Model.Btree Proofs.FormatCodec Proofs.Btree Proofs.FormatLayout Proofs.FormatToc Proofs.FormatLoad Proofs.FormatAdd Proofs.BtreeGet Model.DocCheck Proofs.DocCheck.
+From ZV Require Import Lib.Base Lib.Varint Generated.FormatConsts Model.Format Model.Btree Proofs.FormatCodec Proofs.Btree Proofs.FormatLayout Proofs.FormatToc Proofs.FormatLoad Proofs.FormatAdd Model.FormatMeta Proofs.FormatMeta Proofs.BtreeGet Model.DocCheck Proofs.DocCheck.
 Open Scope N_scope.
 
 (** binary.Uvarint (binary.PutUvarint x ++ rest) = (x, bytes consumed) for every uint64. *)
@@ -164,6 +164,21 @@ Theorem C09_add_doc_stores : forall branches idx b d b', add_doc branches idx b 
   /\ exists mask, branch_mask branches (di_branches d) = Some mask /\ b_masks b' = b_masks b ++ [mask].
 Proof. exact add_doc_stores. Qed.
 Print Assumptions C09_add_doc_stores.
+
+(** Index metadata that Write DERIVES (IndexMetadata.PlainASCII; the reader's findOffset treats rune offsets as byte
+    offsets for contents AND file names when it is set): the flag the model writer stores — postingsBuilder.isPlainASCII
+    of the content builder AND of the name builder, each cleared by the rune loop at a rune start >= utf8.RuneSelf — is
+    true exactly when every stored content and every file name consists of ASCII bytes.  The correspondence compares
+    the flag parsed by the real reader with [meta_plain_ascii] on every generated shard. *)
+Theorem C09_plain_ascii_flag : forall b,
+  meta_plain_ascii b = true <-> (forall s, In s (b_contents b ++ b_names b) -> Forall (fun c => c < 128) s).
+Proof. exact meta_plain_ascii_spec. Qed.
+Print Assumptions C09_plain_ascii_flag.
+
+Example C09_nonvacuous_plain_ascii :   (* ASCII contents, one non-ASCII name ("é"): the flag must be false *)
+  meta_plain_ascii (add_repos [([], [mkDocIn [195;169;46;103;111] [102;111;111] 0 true [] [] [] 0])] 0 b_empty) = false
+  /\ meta_plain_ascii (add_repos [([], [mkDocIn [97;46;103;111] [102;111;111] 0 true [] [] [] 0])] 0 b_empty) = true.
+Proof. vm_compute. split; reflexivity. Qed.
 
 (** DocChecker_spec: DocChecker.Check is stateful in the Go code (one checker per Builder, its trigram map is reused);
     in the model the map is explicit state, and for EVERY state left behind by earlier documents the verdict of a
